@@ -387,14 +387,70 @@ fn constructor_cases(slice: usize, thorough: bool, f: &mut dyn FnMut(Case)) {
     }
 }
 
+/// Evidence that reaches a component only through a deeper nesting path than its sibling: two flat containers declared
+/// equal (so their element variables `shared` and `other` are unified while neither has evidence yet) and two nested
+/// containers declared equal whose innermost element on one side is `shared` and on the other side a typed leaf.
+fn nested_cases(f: &mut dyn FnMut(Case)) {
+    let ts = truths();
+    let by_name = |n: &str| ts.iter().find(|t| t.name == n).unwrap().clone();
+    for leaf_truth in [by_name("uint64"), by_name("address"), by_name("bool")] {
+        for flat in ["mapping", "dyn_array"] {
+            for outer in ["mapping", "dyn_array"] {
+                for inner in ["mapping", "dyn_array"] {
+                    let mk = |c: &str, k: usize, v: usize| if c == "mapping" { J::Mapping(k, v) } else { J::DynArray(v) };
+                    // 0,1 flat containers; 2,3 their keys; 4 shared; 5 other; 6,7 outer; 8,9 outer keys; 10,11 inner; 12,13 inner keys; 14 leaf
+                    let base = vec![
+                        (0usize, mk(flat, 2, 4)),
+                        (1, J::Equal(0)),
+                        (1, mk(flat, 3, 5)),
+                        (6, mk(outer, 8, 10)),
+                        (7, J::Equal(6)),
+                        (7, mk(outer, 9, 11)),
+                        (10, mk(inner, 12, 4)),
+                        (11, mk(inner, 13, 14)),
+                    ];
+                    for ev in subsets(&weakenings(&leaf_truth), 2) {
+                        let Some((w, u)) = join(&leaf_truth, &ev) else { continue };
+                        let mut set = base.clone();
+                        set.extend(ev.iter().map(|j| (14usize, j.clone())));
+                        f(Case {
+                            set: set.clone(),
+                            n: 15,
+                            expect: vec![(14, Some((w, usage_index(u)))), (4, Some((w, usage_index(u)))), (5, Some((w, usage_index(u))))],
+                            same: vec![(0, 1), (6, 7), (10, 11), (4, 14), (4, 5)],
+                            shape: vec![(0, flat), (6, outer), (10, inner)],
+                            label: "compatible:nested".to_string(),
+                        });
+                        // a contradictory width arrives at `other`, the sibling that only meets the leaf two levels down
+                        if let Some(w) = w {
+                            let mut s2 = set.clone();
+                            s2.push((5, J::Word(Some(if w == 128 { 64 } else { 128 }), 0)));
+                            f(Case {
+                                set: s2,
+                                n: 15,
+                                expect: vec![(5, None), (4, None), (14, None)],
+                                same: vec![(4, 5)],
+                                shape: vec![],
+                                label: "contradiction:different-width".to_string(),
+                            });
+                        }
+                    }
+                }
+            }
+        }
+    }
+}
+
 pub struct C15;
 
 fn cases_of_chunk(chunk: usize, thorough: bool, f: &mut dyn FnMut(Case)) {
     let ts = truths();
     if chunk < ts.len() {
         word_cases(&ts[chunk], f);
-    } else {
+    } else if chunk < ts.len() + 12 {
         constructor_cases(chunk - ts.len(), thorough, f);
+    } else {
+        nested_cases(f);
     }
 }
 
@@ -406,7 +462,7 @@ impl Check for C15 {
         "model_checking"
     }
     fn chunks(&self, _tier: Tier) -> usize {
-        truths().len() + 12
+        truths().len() + 13
     }
     fn run_chunk(&self, tier: Tier, chunk: usize, ctx: &mut Ctx) {
         cases_of_chunk(chunk, tier.thorough(), &mut |c: Case| {
@@ -454,7 +510,7 @@ impl Check for C15 {
              of the truth on one variable plus every subset of <= 2 on a second variable declared equal (width known or not, usage \
              anywhere below the true one on its chain: Bytes < Numeric < Unsigned | Signed, Bytes < Numeric < Unsigned < Address, Bytes < Address | Bool | Selector | \
              Function), constructors stated twice through an equality with the component evidence split between the two sides, crossed with \
-             `Any` on either side and on a third variable that is only declared equal (quick tier: for component evidence of at most one judgement per component). \
+             `Any` on either side and on a third variable that is only declared equal; nested containers (two levels of mapping / dynamic array) whose innermost element is shared with a flat container declared equal to another, so that evidence arrives two rounds after the equality (quick tier: for component evidence of at most one judgement per component). \
              Expected: the join computed on the chains (not with the tool's merge table), never a conflict, constructors kept with \
              unified components. Then the same sets with exactly one plainly contradictory judgement (different width incl. width 0, signed vs \
              unsigned / address, bool vs numeric, mapping vs array, mapping vs sized word, fixed arrays of different length, two words of different widths next to a dynamic array): the class \
